@@ -121,6 +121,26 @@ def s_simplify(draw, tier):
             "exponent": draw(st.sampled_from([0.0, 0.0, 1.5, -2.0])), "passes": [list(p) for p in passes]}
 
 
+@st.composite
+def s_diag_chain(draw, tier):
+    """open chains and small trees in which 2-4 diagonal / antidiagonal / single-column tensors sit in a row on a dangling
+    leg (gates on an open wire), inserted in a drawn order, simplified through the *default* output labels"""
+    n = draw(st.integers(3, 6))
+    d = draw(st.sampled_from([2, 2, 3]))
+    labels = [chr(ord("a") + i) for i in range(n + 1)]
+    nspecial = draw(st.integers(2, min(4, n - 1)))
+    kinds = ["gauss"] * (n - nspecial) + [draw(st.sampled_from(["diag", "diag", "antidiag", "column"])) for _ in range(nspecial)]
+    if draw(st.booleans()):
+        kinds = kinds[::-1]
+    tensors = [{"inds": [labels[i], labels[i + 1]], "seed": draw(A.seeds), "kind": kinds[i]} for i in range(n)]
+    order = draw(st.permutations(list(range(n))))
+    tensors = [tensors[i] for i in order]
+    name = draw(st.sampled_from(["diagonal", "diagonal", "antidiag", "column", "rank", "full"]))
+    passes = [[name, draw(st.sampled_from([2, 3, 8, 9]))]] + ([["diagonal", draw(st.sampled_from([2, 3]))]] if draw(st.booleans()) else [])
+    return {"tensors": tensors, "sizes": {l: d for l in labels}, "out": [labels[0], labels[-1]], "cplx": draw(st.booleans()),
+            "exponent": draw(st.sampled_from([0.0, 0.0, 1.5])), "passes": passes}
+
+
 PASSES = ["rank", "diagonal", "antidiag", "column", "split", "pair", "loop", "full", "full", "full_eq", "full_eq1", "hyper_resolve",
           "compress_simplify", "squeeze", "fuse_multibonds"]
 FULL_SEQS = ["ADCR", "ADCRS", "R", "DR", "CR", "AR", "ADCRSLP", "RPL", "S", "L", "P", "RAD", "CDA", "SRP"]
@@ -181,6 +201,9 @@ def run_simplify(case):
         sizes_before = {ix: tn.ind_size(ix) for ix in tn.ind_map}
         inplace = opt % 2 == 0
         kw = {"output_inds": out}
+        if (opt // 2) % 3 == 1 and set(out) == set(tn.outer_inds()) and name not in ("hyper_resolve", "compress_simplify"):
+            # the documented default: outputs = the labels that appear once - spelled by leaving the argument out
+            kw = {}
         if name in ("rank", "diagonal", "antidiag", "column", "pair", "loop"):
             f = getattr(tn, name + ("_simplify" if name in ("rank", "pair", "loop") else "_reduce" if name in ("diagonal", "column") else "_gauge"))
             res = f(inplace=inplace, **kw)
@@ -631,6 +654,10 @@ SUBCHECKS = [
     SubCheck("gauge", run_gauge, s_gauge, examples=(150, 2500), shards=(6, 12),
              rule="tree/loopy graph networks x composed gauge/canonize/norm/bond/compress rewrites; value over dangling legs unchanged, "
                   "promised forms hold; nt: >=3 tensors and a rewrite changed something"),
+    SubCheck("diag_chain", run_simplify, s_diag_chain, examples=(120, 2000), shards=(1, 4),
+             rule="open chains with 2-4 diagonal / antidiagonal / single-column tensors in a row on a dangling leg, tensors inserted in "
+                  "a drawn order, one or two passes called with the default output labels: same tensor over the same outer labels; nt: a "
+                  "pass fired"),
     SubCheck("fuse_gauged", run_gauge, s_fuse_gauged, examples=(100, 2000), shards=(2, 6),
              rule="graphs with 1-3 double/triple bonds x a dictionary of random positive bond gauges covering a random part of the "
                   "bonds x fuse_multibonds(gauges=) / tensor_fuse_squeeze(gauges=): (network, gauges) denotes the same tensor, no "
